@@ -217,7 +217,7 @@ pub fn minimise(c: &Circuit, prop: &str, inv: &str) -> Circuit {
                 R1Op::AddConst(_, s) | R1Op::SubConst(_, s) | R1Op::AddAssignConst(_, s) | R1Op::SubAssignConst(_, s) => {
                     *s = ESrc::Generator
                 }
-                R1Op::WitnessOffer { offer } | R1Op::AllocUnchecked { offer } => *offer = Offer::Honest(ESrc::Generator),
+                R1Op::WitnessOffer { offer } | R1Op::WitnessOfferAffine { offer } | R1Op::AllocUnchecked { offer } => *offer = Offer::Honest(ESrc::Generator),
                 _ => {}
             }
             try_edit!(x);
@@ -447,6 +447,12 @@ pub fn c14_cases(c: &Corpus, quick: bool) -> Vec<Circuit> {
                     // keep the quick tier bounded: full set for the honest flag values only on a subset
                     out.push(mk(
                         vec![R1Op::WitnessOffer { offer: o.clone() }],
+                        vec![sub.clone()],
+                        vec![es.clone()],
+                    ));
+                    // the other allocation entry point (AffinePoint) must judge the same offer the same way
+                    out.push(mk(
+                        vec![R1Op::WitnessOfferAffine { offer: o.clone() }],
                         vec![sub.clone()],
                         vec![es.clone()],
                     ));
